@@ -36,7 +36,7 @@ REQUIRED = {"table.predicates": 20, "table.partition": 14, "table.inner_outer": 
             "history.reset_leaves_nothing": {"quick": 100, "thorough": 4000}}
 REQUIRED_SEEN = {"feature_status": ["passed", "failed", "error", "skipped", "untested", "hook_error"],
                  "scenario_status": ["passed", "failed", "error", "skipped", "untested", "hook_error"],
-                 "junit_mode": ["on", "off"], "raising_tag_hook": ["tag_on_one_level", "tag_on_several_levels"]}
+                 "junit_mode": ["on", "off"], "autoretry_patch_style": ["rows", "as_listed"], "raising_tag_hook": ["tag_on_one_level", "tag_on_several_levels"]}
 EXHAUSTIVE = True
 EXHAUSTIVE_SCOPE = "all members of Status; all child-status tuples up to the length bound per container kind"
 NSHARDS = {"quick": 16, "thorough": 16}
@@ -377,15 +377,24 @@ def histories(mon, lab, rng, n):
                 fired.append(name)
                 raise RuntimeError("hook fails in attempt 1 only")
 
-        def pre_run(st):
+        style = "rows" if i % 2 == 0 else "as_listed"
+
+        def pre_run(st, style=style):
             for f in st.features:
+                if style == "as_listed":
+                    # the documented recipe: everything feature.scenarios / rule.scenarios lists -- outlines as ONE object each
+                    for container in [f] + list(f.rules):
+                        for s in container.scenarios:
+                            patch_scenario_with_autoretry(s, max_attempts=2)
+                    continue
                 for s in f.walk_scenarios(with_outlines=True):
                     if isinstance(s, lab.ScenarioOutline):
                         _ = s.scenarios
                 for s in f.walk_scenarios():
                     patch_scenario_with_autoretry(s, max_attempts=2)
+        mon.seen("autoretry_patch_style", style)
         obs = lab.run(program, args=[], hook_plugins=[plug], pre_run=pre_run)
-        hist = {"victim": victim, "hook": hookname, "fired": fired}
+        hist = {"victim": victim, "hook": hookname, "fired": fired, "patched": style}
         mon.case(("retry-hook", RB.strip_case(case), hist), True)
         if obs.escaped is not None:
             mon.check("history.no_exception_escapes", False, lambda: RB.witness(case, escaped=repr(obs.escaped), history=hist))
